@@ -378,7 +378,7 @@ def _dim_ok(kname, d):
         return False
 
 
-def start_system(tasks, nproc=16):
+def start_system(tasks, nproc=int(os.environ.get("C09_NPROC", "16"))):
     """submit every task (one generated module each) to worker processes"""
     tasks = sorted(tasks, key=lambda t: -t[2] * len(FAMILIES[t[0]]))   # longest first
     ex = concurrent.futures.ProcessPoolExecutor(max_workers=nproc)
